@@ -14,6 +14,9 @@ CLAIMED = {
     "C02": ("truth table over the extracted dedup guard + value-set entry-guard analysis on all handler paths + who-may-call",
             "Decides: durable duplicate check dominates dispatch (16+ row truth table), every effectful commit of each handler is reached only with the addressed entity read in the step's start status, execute only under RUNNING / not canceled. Does not decide outcome equality under permutations.",
             "Trusted: status sets read from models/status.py, guard table in sa/rules/c02.py.", "5/C02"),
+    "C03": ("collector algebra over the join evaluators (status predicates as sets, dominating conditions of every READY return) + dispatch exhaustiveness + control-dependence / who-may-call rules in StartStageHandler + commit-effect rule on all handler paths",
+            "Decides: every READY of the AND / OR / first-of / multi-merge / quorum evaluators is returned only where the code has established that all (activated) / one / join_threshold upstreams are in a continuable status and the join has not fired; a halted upstream yields SKIP before READY; every JoinType member reaches its evaluator; tasks are planned only via _start_if_ready under phase == READY computed from upstreams read in the same activation; the jump bypass has one writer (the jump target) and is consumed; no commit that stores its own stage halted pushes StartStage. Does not decide the order of executions under every schedule.",
+            "Trusted: status sets of models/status.py as written; C04 for the claim.", "5/C03"),
     "C04": ("ordering analysis on all paths of _start_if_ready (claim CAS before planning) + SQL shape of the phase CAS + join-flag ordering",
             "Decides: every planning side effect is dominated by a committed store_stage(expected_phase=status read); the CAS loser does nothing; the phase UPDATEs are CAS on (id, version, status); first-of/quorum joins are marked fired between claim and plan and never READY again. Does not decide the interleavings themselves.",
             "Trusted: SQLite writer serialisation (the conditional UPDATE is the linearisation point).", "5/C04"),
@@ -50,6 +53,9 @@ CLAIMED = {
     "C15": ("control-dependence of the StartStage push on the jump-count guard + def-use rules for the counter and limit + clear-set agreement between writers of join bookkeeping and reset_stage_for_retry + commit-sequence rule",
             "Decides: the jump push is control-dependent on _check_jump_count being True and the False branch fails the stage atomically; the limit test is >= with the documented precedence and default; the counter is incremented and written to both stages; resets keep the jump bookkeeping and clear every join bookkeeping key any writer sets; each jump is one transaction on freshly read stages; downstream collection only under all-prerequisites-in-scope. Does not decide exactness of the re-arm set for every DAG.",
             "Trusted: key tables read from the source, not hard-coded.", "5/C15"),
+    "C16": ("def-use / structural rules on the ancestor merge (closure, Kahn order, overwrite and list rule) in every store implementation + statement-order rule in _plan_stage + sibling agreement of the two merge sites + inherited-key rule + commutativity shape of the order-insensitive reducers",
+            "Decides the structural necessary conditions: merged stages = transitive requisites of the stage, itself excluded; a stage is merged after its requisites and later non-list values overwrite (nearest wins), lists concatenate; ancestors, then reducers, then own context (reducer keys protected); re-arm clears outputs and inherited keys are not overlaid as own at the next planning (current iteration); sum/max/min fold all branch values commutatively. Does not decide the resulting values for every DAG and schedule.",
+            "Trusted: dict/set semantics of CPython.", "5/C16"),
     "C17": ("path-condition analysis of task execution on all RunTask paths + commit-sequence shapes of CancelWorkflow/CancelStage + SQL who-may-write for is_canceled",
             "Decides: a task body/timeout hook is executed only where the path condition has is_canceled False, the workflow not complete and the task RUNNING; cancel handlers have the reviewed atomic shapes and only write CANCELED to non-completed entities; is_canceled has one writer and is never reset; a CANCELED top-level stage yields CANCELED after the TERMINAL test. Does not decide liveness of cancellation.",
             "Trusted: SQLite writer serialisation.", "5/C17"),
@@ -94,7 +100,7 @@ m = {
     "engines": [{"name": "sa", "path": "/verif/sa", "serves_properties": sorted(CLAIMED), "kind_free_text": "static analysis over the stdlib ast: program model, path-sensitive abstract interpreter with effect traces, SQL shape parser, writer/reader tables, truth tables over extracted guards"}],
     "checks": checks,
     "notes": "Static analysis only (no execution of the repository). See DESIGN.md. fix: commits in /repo are listed in known_findings.json.",
-    "not_applicable": [{"property_id": p["id"], "reason": "check not built yet (build in progress; planned rules in DESIGN.md section 5)"} for p in props if p["id"] not in CLAIMED],
+    "not_applicable": [{"property_id": p["id"], "reason": "no structural clause of this property could be decided soundly by static analysis (see DESIGN.md section 9)"} for p in props if p["id"] not in CLAIMED],
 }
 json.dump(m, open(os.path.join(V, "MANIFEST.json"), "w"), indent=1)
 print("claimed", sorted(CLAIMED))
